@@ -555,23 +555,30 @@ def _check_shadow_lambda(run: Run, ctx, m, vl: FuncInfo, prop: str) -> None:
     kinds = attrs_in_call_closure(m, vl, LAMBDA_ARG_KINDS)
     missing = [k for k in LAMBDA_ARG_KINDS if k not in kinds]
     run.check(not missing, rule_d, vl, vl.node, "all five kinds of lambda parameters are shadowed", f"visit_Lambda does not shadow the lambda's {'/'.join(missing)} parameters: a pending substitution replaces names bound by them")
-    gvs = [c for c in calls_in(vl) if isinstance(c.func, ast.Attribute) and c.func.attr == "generic_visit"]
+    from ..lib import call_events, event_after, event_before
+
+    evs = call_events(ctx, vl, lambda nm: nm in ("generic_visit", "define_name", "append", "pop"))
+    gvs = [e for e in evs if e.name == "generic_visit"]
     run.check(len(gvs) == 1, rule_d, vl, vl.node, "the lambda is visited once under the shadow frame", f"{len(gvs)} generic_visit calls in visit_Lambda")
     if len(gvs) != 1:
         return
     gv = gvs[0]
     withs = [n for n in own_nodes(vl) if isinstance(n, ast.With)]
     selfp_ = ("param", vl.pos_params[0])
-    defines = [c for c in calls_in(vl) if isinstance(c.func, ast.Attribute) and (c.func.attr == "define_name" or (c.func.attr == "append" and fa.cfg.has_node(c) and root_of(strip_sites(fa.term_of(c.func.value))) == selfp_))]
+    defines = [e for e in evs if e.name == "define_name" or (e.name == "append" and e.recv is not None and root_of(e.recv) == selfp_)]
     cfg = fa.cfg
     if withs:
         w = withs[0]
         inside = {id(x) for x in ast.walk(w)}
-        ok = id(gv) in inside and all(id(d) in inside for d in defines) and defines and all(cfg.dominates(cfg.node_of(_outer_stmt(d, w)), cfg.node_of(gv)) for d in defines)
+
+        def _in(e):
+            return (id(e.call) in inside) if e.owner is vl else (e.site.stmt is not None and id(e.site.stmt) in inside)
+
+        ok = _in(gv) and bool(defines) and all(_in(d) for d in defines) and all(event_before(ctx, vl, d, gv) or (d.site is not gv.site and cfg.dominates(cfg.node_of(_outer_stmt(d.call, w)), gv.site)) if d.owner is vl else event_before(ctx, vl, d, gv) for d in defines)
         run.check(ok, rule_d, vl, w, "parameters are defined in a frame that encloses the visit of the body", "the shadow frame does not enclose the visit of the lambda body (or is filled after it)")
     else:
-        pops = [c for c in calls_in(vl) if isinstance(c.func, ast.Attribute) and c.func.attr == "pop"]
-        ok = len(defines) == 1 and len(pops) == 1 and cfg.dominates(cfg.node_of(defines[0]), cfg.node_of(gv)) and cfg.dominates(cfg.node_of(gv), cfg.node_of(pops[0])) and cfg.postdominates(cfg.node_of(pops[0]), cfg.node_of(gv))
+        pops = [e for e in evs if e.name == "pop" and e.recv is not None and root_of(e.recv) == selfp_]
+        ok = len(defines) == 1 and len(pops) == 1 and defines[0].recv == pops[0].recv and event_before(ctx, vl, defines[0], gv) and event_before(ctx, vl, gv, pops[0]) and event_after(ctx, vl, pops[0], gv)
         run.check(ok, rule_d, vl, vl.node, "shadow frame pushed before and popped after the body is visited, on every path", "the shadow frame is not pushed before / popped after the visit of the lambda body on every path")
     # R3e: capture avoidance - the binder must be renamed (fresh) while substitutions are pending
     renames = any(isinstance(c.func, ast.Name) and c.func.id in ("arg_name", "make_args_unique") for c in calls_in(vl))
